@@ -54,8 +54,8 @@ theorem Poi.presD : PresD Poi where
   cqPop := fun h hcq => ⟨Inv.presD.cqPop h.1 hcq, h.2.of_same rfl (fun _ h => h)⟩
   infRemove := fun id' h => ⟨Inv.presD.infRemove id' h.1, h.2.of_same rfl (fun _ h => h)⟩
   drop_x := fun h hx => ⟨Inv.presD.drop_x h.1 hx, h.2⟩
-  popInsert := fun key rem h hpq hnc => ⟨Inv.presD.popInsert key rem h.1 hpq hnc, h.2.of_same rfl (fun _ h => h)⟩
-  infRearm := fun id key t h => ⟨Inv.presD.infRearm id key t h.1, h.2.of_same rfl (fun _ h => h)⟩
+  popInsert := fun key rem due h hpq hnc => ⟨Inv.presD.popInsert key rem due h.1 hpq hnc, h.2.of_same rfl (fun _ h => h)⟩
+  infRearm := fun id key t due h => ⟨Inv.presD.infRearm id key t due h.1, h.2.of_same rfl (fun _ h => h)⟩
   sendReqOk := fun t body h hp he hid hb =>
     ⟨Inv.presD.sendReqOk t body h.1 hp he hid hb, h.2.of_same rfl (fun _ h => List.mem_cons_of_mem _ h)⟩
   sendReqFail := fun t body pn t' site h hp he hid hb =>
